@@ -71,6 +71,42 @@ def placement_k(rep, pid, binp, seed, n, kind):
     return bad
 
 
+def block_k(rep, pid, binp, seed, trees, p_absolute=300, p_hidden=250):
+    """K3: block containers that have display:none / position:absolute children interleaved with in-flow ones (`vh c10 kcases3`:
+    C10's K2 protocol on trees with p_absolute / p_hidden per mille absolute / hidden nodes; C06 runs it with absolute children only, C05 with
+    hidden children only -- so that a defect of one property does not break the other's K -- and C10 with both): the container's own LayoutOutput (size, collapse-through,
+    margin sets) and every in-flow child's stored layout + the known dimensions / available width passed to it, with the recorded
+    child outputs as oracle values, vs Model.BlockRun.run_case2 -- i.e. vs generate_item_list + block_inflow + compute_inner's
+    decisions, the definitions C06_block_inflow_abs_blind / C05_block_items_ignore_hidden are about."""
+    rc, out = vh(binp, ['c10', 'kcases3', seed, trees, p_absolute, p_hidden], timeout=300)
+    tags = [l.split()[1:] for l in out.split('\n') if l.startswith('T ')]
+    cases, impl = parse_cr(out)
+    if rc != 0 or not cases or len(tags) != len(cases):
+        rep.add_broken('correspondence', 'vh c10 kcases3', 'harness failed: ' + out[-500:])
+        return []
+    try:
+        model = run_model(pid + 'b', 'From TV Require Import Model.BlockRun.', 'run_case2', cases, scope='Z', elem='list Z')
+    except RuntimeError as ex:
+        rep.add_broken('correspondence', 'model evaluation (block K3)', str(ex)[-1500:])
+        return []
+    keep = [i for i, m in enumerate(model) if m != [-1]]
+    kinds = []
+    for i in keep:
+        c = cases[i]
+        kinds.append(''.join('H' if c[11 + 57 + 67 * k] == 3 else 'A' if c[11 + 57 + 67 * k + 6] == 1 else 'I' for k in range(c[10])))
+    rep.cov['block_k_containers'] = len(keep)
+    rep.cov['block_k_skipped_content_based_width'] = len(cases) - len(keep)
+    rep.cov['block_k_with_absolute_child'] = sum(1 for s in kinds if 'A' in s)
+    rep.cov['block_k_with_hidden_child'] = sum(1 for s in kinds if 'H' in s)
+    rep.cov['block_k_with_both'] = sum(1 for s in kinds if 'A' in s and 'H' in s)
+    rep.cov['block_k_absolute_between_in_flow'] = sum(1 for s in kinds if re.search('I[AH]*A[AH]*I', s))
+    rep.cov['block_k_hidden_between_in_flow'] = sum(1 for s in kinds if re.search('I[AH]*H[AH]*I', s))
+    rep.cov['block_k_child_patterns'] = len(set(kinds))
+    bad = diff_results(rep, 'block containers with absolute / hidden children interleaved (recorded child outputs) vs Model.BlockRun.run_case2 over F32',
+                       [cases[i] for i in keep], [impl[i] for i in keep], [model[i] for i in keep])
+    return [(tags[cases.index(c)], c, a, b) for c, a, b in bad]
+
+
 def parse_oracle(out):
     res = {'fail': [], 'known': [], 'panic': [], 'stat': {}, 'done': None}
     for l in out.split('\n'):
